@@ -23,6 +23,7 @@ struct ThreadMon {
     cur_depth: usize,
     expansions_in_layer: usize,
     merged_since_next_variable: bool,
+    seen_first: bool,
 }
 thread_local! {
     static MON: RefCell<ThreadMon> = RefCell::new(ThreadMon::default());
@@ -47,11 +48,11 @@ pub fn reset_counters() {
 
 /// solver runs: called by SimWidth when a worker starts a new sub-problem
 pub fn on_new_subproblem(width: usize, root_depth: usize) {
-    MON.with(|m| { let mut m = m.borrow_mut(); close_layer(&mut m); m.width = Some(width); m.root_depth = root_depth; m.compile_no = 0; m.explicit_type = None; m.cur_var = None; });
+    MON.with(|m| { let mut m = m.borrow_mut(); close_layer(&mut m); m.width = Some(width); m.root_depth = root_depth; m.compile_no = 0; m.explicit_type = None; m.cur_var = None; m.seen_first = false; });
 }
 /// dd-history: called by the arm before each compile (ctype: 0 exact 1 relaxed 2 restricted)
 pub fn on_explicit_compile(width: usize, root_depth: usize, ctype: u8) {
-    MON.with(|m| { let mut m = m.borrow_mut(); close_layer(&mut m); m.width = Some(width); m.root_depth = root_depth; m.compile_no = 0; m.explicit_type = Some(ctype); m.cur_var = None; });
+    MON.with(|m| { let mut m = m.borrow_mut(); close_layer(&mut m); m.width = Some(width); m.root_depth = root_depth; m.compile_no = 0; m.explicit_type = Some(ctype); m.cur_var = None; m.seen_first = false; });
 }
 /// must be called when a compile is over (or abandoned) so that the last layer is accounted for
 pub fn on_compile_end() { MON.with(|m| { let mut m = m.borrow_mut(); close_layer(&mut m); m.cur_var = None; }); }
@@ -123,6 +124,12 @@ impl<'a, P: Problem> Problem for MonProblem<'a, P> where P::State: Clone + Eq + 
         MON.with(|m| {
             let mut m = m.borrow_mut();
             close_layer(&mut m);
+            // depth protocol: a compilation starts at the depth of its sub-problem and goes down one layer at a time
+            if m.width.is_some() {
+                let ok = depth == m.root_depth || (m.seen_first && depth == m.cur_depth + 1);
+                if !ok { report_violation("C12", format!("next_variable called with depth {} although the sub-problem being compiled lies {} layers below the problem root{}", depth, m.root_depth, if m.seen_first { format!(" and the previous layer was at depth {}", m.cur_depth) } else { String::new() })); }
+                m.seen_first = true;
+            }
             if m.width.is_some() && depth == m.root_depth { m.compile_no += 1; }
             m.cur_var = var; m.cur_depth = depth; m.expansions_in_layer = 0; m.merged_since_next_variable = false;
         });
